@@ -54,7 +54,7 @@ func c09(tier string) {
 		ctx.Inconclusive("VERIF_SELF not set (run through ./check)")
 		ctx.FinishShard()
 	}
-	tmp, _ := os.MkdirTemp("", "c09")
+	tmp := lib.TempDir("c09")
 	defer os.RemoveAll(tmp)
 	// profiles
 	type pdef struct {
